@@ -220,6 +220,20 @@ def run(ctx):
                         q1.in_unit(dst) if op == "in_unit" else (q1 == q2) if op == "eq" else (q1 < q2)
                     except Exception as ex:
                         ctx.count(f"history/compound_operations_raised/{type(ex).__name__}")
+            # ... and what the caller does with quantities it was handed (the shared, memoised unit steps inside the
+            # library): augmented assignment on the results of quantify() / unprefixed() of scale units
+            try:
+                step = U[a].quantify()
+                step *= 5
+                step /= 4
+                res_ = (P[rng.choice(["milli", "kilo"])] * U[b]).quantify()
+                res_ /= 4
+                res_ += res_
+                un_ = (3 * U[a]).unprefixed()
+                un_ *= 2
+                ctx.count("history/augmented_assignments_on_returned_quantities")
+            except Exception as ex:
+                ctx.count(f"history/augmented_assignment_raised/{type(ex).__name__}")
             # straight afterwards, in both directions, and for a third scale
             for (x, y) in ((a, b), (b, a), (a, rng.choice(SCALES)), (rng.choice(SCALES), b)):
                 if x == y:
